@@ -2,7 +2,8 @@ use std::ops::{Deref, DerefMut};
 
 use crate::nodes::{
     AssignStatement, BinaryExpression, Block, CompoundAssignStatement, DoStatement, Expression,
-    FieldExpression, IndexExpression, Prefix, Statement, Variable, VariableAssignment,
+    FieldExpression, IndexExpression, InterpolationSegment, Prefix, Statement, Variable,
+    VariableAssignment,
 };
 use crate::process::{DefaultVisitor, IdentifierTracker, NodeProcessor, NodeVisitor, ScopeVisitor};
 use crate::rules::{
@@ -80,10 +81,17 @@ impl Processor {
                     | Expression::Identifier(_)
                     | Expression::Number(_)
                     | Expression::Nil(_)
-                    | Expression::InterpolatedString(_)
                     | Expression::String(_)
                     | Expression::True(_)
                     | Expression::VariableArguments(_) => None,
+                    // without values, an interpolated string is a plain string
+                    Expression::InterpolatedString(string)
+                        if string
+                            .iter_segments()
+                            .all(|segment| matches!(segment, InterpolationSegment::String(_))) =>
+                    {
+                        None
+                    }
                     Expression::Parenthese(parenthese)
                         if matches!(
                             parenthese.inner_expression(),
@@ -104,6 +112,7 @@ impl Processor {
                     | Expression::Function(_)
                     | Expression::If(_)
                     | Expression::Index(_)
+                    | Expression::InterpolatedString(_)
                     | Expression::Parenthese(_)
                     | Expression::Table(_)
                     | Expression::TypeCast(_)
